@@ -329,13 +329,15 @@ def apply_body_rules(body, counts, dropped):
                 i = e
                 continue
         # R2
-        m = re.match(r"debug_assert(_eq|_ne)?!", body[i:])
+        m = re.match(r"debug_assert!", body[i:])
         if m and (i == 0 or not (body[i - 1].isalnum() or body[i - 1] == "_")):
             counts["R2_debug_assert"] = counts.get("R2_debug_assert", 0) + 1
             i += len("debug_")
             continue
-        m = re.match(r"assert_(eq|ne)!\s*\(", body[i:])
+        m = re.match(r"(?:debug_)?assert_(eq|ne)!\s*\(", body[i:])
         if m and (i == 0 or not (body[i - 1].isalnum() or body[i - 1] == "_")):
+            if m.group(0).startswith("debug_"):
+                counts["R2_debug_assert"] = counts.get("R2_debug_assert", 0) + 1
             e = split_macro_call(body, i)
             inner = body[i + m.end():e - 1]
             parts = split_top_commas(inner)
